@@ -7,6 +7,9 @@ From Coq Require Import ZArith List String Bool Lia.
 From MV Require Import Ast Eval Scalar Machine Run FactsDef Static.
 From MV.Gen Require Import Facts.
 From MV.Proofs Require Import Arith Logic Prim View OpsLocal Drops Retain Deref.
+From MV Require EquivDefs EquivTac EquivDeref.
+From MV.Gen Require AstGen.
+From MV.Proofs Require Refine SourceSpecs.
 Import ListNotations.
 Open Scope Z_scope.
 
@@ -77,3 +80,14 @@ Qed.
 
 Print Assumptions C15_impls_delegate_to_the_slice.
 Print Assumptions C15_deref_is_exactly_the_elements.
+
+(* END TO END for the view that all of these delegations compare, order, hash and print: the REGENERATED
+   body of `Deref::deref`, evaluated by the IR semantics on a vector whose contents are the list l, gives
+   exactly the slice of l -- whatever the capacity, the alignment, the block size or stale slots beyond
+   len -- and leaves the state untouched (tie: EquivDeref.v; composed in Proofs/SourceSpecs.v) *)
+Theorem C15_the_source_of_deref_gives_exactly_the_elements :
+  forall cfg ncap, MV.Proofs.Prim.cfg_ok cfg -> forall s v l,
+  MV.Proofs.Refine.vabs cfg s v l ->
+  MV.EquivTac.runm cfg ncap MV.Gen.AstGen.deref__MiniVec__deref_ast [VObj v] s = (Norm (MV.EquivDeref.slice_of l), s).
+Proof. exact MV.Proofs.SourceSpecs.deref_source. Qed.
+Print Assumptions C15_the_source_of_deref_gives_exactly_the_elements.
